@@ -379,10 +379,14 @@ pub enum Ev {
     ObserverBlocked { on: &'static str },
     /// The embedder changed the id of the system app in place (channel change).
     EmbedderRename { to: String },
+    /// An embedder task held the storage lock for a step, then the app-set lock, and released both.
+    EmbedderTouched,
     StreamEnd,
     // --- control
     CtlSend { req: usize, handle: usize, on_demand: bool },
     CtlReply { req: usize, reply: String, lo: u64, hi: u64 },
+    /// The caller dropped the request's future before a reply arrived (the request itself may still be taken).
+    CtlAbandon { req: usize },
     HandleDrop { handle: usize },
     // --- driver
     GateRelease { id: usize, kind: String, had_waker: bool, wake_before: usize },
